@@ -9,7 +9,7 @@ from checks.common import swarm
 ID = 'C16'
 LEVEL = 'exploration'
 NEEDS = ('threads', 'aio')
-QUICK = dict(runs=6000, wall=85)
+QUICK = dict(runs=18000, wall=85)
 THOROUGH = dict(runs=400000, wall=1500)
 RULE = ('the same generated (inputs n<=12, per-element virtual durations => all completion orders, failing set, preprocessor failing set '
         'incl. the first element, return_x, return_exceptions, capacity/concurrency) is run through a sync function and its async '
